@@ -23,7 +23,7 @@ META = dict(
         "own caption word. The collection is written with the real writer side (FsOutput, zip_dir) and opened with wiki.make_wiki. "
         "Oracle (rl): the writer entry point returns, pypdf opens the file, and the extracted text with whitespace and hyphens removed "
         "contains every expected word. Oracle (odf): the writer entry point returns, content.xml / styles.xml / meta.xml are well-formed "
-        "and odflint reports nothing but the mimetype note the repository's own test tolerates, and no article was dropped as a whole ("gives up": "
+        "and odflint reports nothing but the mimetype note the repository's own test tolerates, and no article was dropped as a whole ('gives up': "
         "at least one expected word of every article is in content.xml's text; the total of missing ODF words is reported as a note, not asserted). A slice of documents additionally goes "
         "through the single-article test mode of both writers. Non-trivial: >= 2 articles, or a template call, or an image."
     ),
